@@ -386,4 +386,139 @@ theorem volOk_insertMove (A : ADB) (txSeq : Val) (l : String) (ins : Val) (eff :
     · exact ⟨h.pcvOut, h.pcevOut⟩
   exact ⟨cin.v, cout.v, cin.e, cout.e⟩
 
+-- ---------------------------------------------------------------- … along a posting, a transaction, a log entry
+
+/-- the accounts of `A'` are those of `A` (same `seq`, ledger and address) or were created since -/
+def AcctExt (A A' : ADB) : Prop :=
+  A.acctSeq ≤ A'.acctSeq ∧
+  ∀ r ∈ A'.accounts, (∃ r0 ∈ A.accounts, r0.seq = r.seq ∧ r0.ledger = r.ledger ∧ r0.address = r.address) ∨ A.acctSeq ≤ r.seq
+
+theorem acctExt_upsert (A : ADB) (l a : String) (m : Kvs) (d : Val) : AcctExt A (aUpsertAccount A l a m d) := by
+  unfold aUpsertAccount
+  split
+  · refine ⟨by simp, ?_⟩
+    intro r hr
+    rw [aUpdateAccounts_accounts, List.mem_map] at hr
+    obtain ⟨r0, hr0, rfl⟩ := hr
+    left
+    refine ⟨r0, hr0, ?_⟩
+    split <;> simp
+  · refine ⟨by simp [aAcctInsHist], ?_⟩
+    intro r hr
+    simp only [aAcctInsHist, List.mem_append, List.mem_singleton] at hr
+    rcases hr with hr | rfl
+    · exact .inl ⟨r, hr, rfl, rfl, rfl⟩
+    · exact .inr (Nat.le_refl _)
+
+theorem AcctExt.trans {A B C : ADB} (h1 : AcctExt A B) (h2 : AcctExt B C) : AcctExt A C := by
+  refine ⟨Nat.le_trans h1.1 h2.1, ?_⟩
+  intro r hr
+  rcases h2.2 r hr with ⟨r1, hr1, e1, e2, e3⟩ | h
+  · rcases h1.2 r1 hr1 with ⟨r0, hr0, f1, f2, f3⟩ | h
+    · exact .inl ⟨r0, hr0, f1.trans e1, f2.trans e2, f3.trans e3⟩
+    · exact .inr (by omega)
+  · exact .inr (Nat.le_trans h1.1 h)
+
+/-- an account that did not exist before has a `seq` no move refers to -/
+theorem fresh_acct_no_moves {A A' : ADB} (hs : Sane A) (hext : AcctExt A A') (l a : String)
+    (hno : A.accounts.any (acctKey l a) = false) (hyes : A'.accounts.any (acctKey l a) = true) :
+    ∀ r ∈ A.moves, r.acctSeq ≠ acctSeqOf A' l a := by
+  obtain ⟨r2, hr2, e1, e2, e3⟩ := acctSeqOf_spec A' l a hyes
+  have hge : A.acctSeq ≤ r2.seq := by
+    rcases hext.2 r2 hr2 with ⟨r0, hr0, f1, f2, f3⟩ | h
+    · have : A.accounts.any (acctKey l a) = true := by
+        rw [List.any_eq_true]; exact ⟨r0, hr0, by simp [acctKey, f2, f3, e2, e3]⟩
+      rw [hno] at this; cases this
+    · exact h
+  intro r hr
+  obtain ⟨a0, ha0, g1, _⟩ := hs.mv_acct r hr
+  have := hs.acct_lt a0 ha0
+  omega
+
+theorem volOk_insertPosting (A : ADB) (txSeq : Val) (l : String) (ins : Val) (eff : Int) (p : Posting) (am : List (String × Meta))
+    (hs : Sane A) (h : VolOk A.moves) : VolOk (aInsertPosting A txSeq l ins eff p am).moves := by
+  unfold aInsertPosting
+  have s1 := sane_upsertAccount A l p.source (amKvs am p.source) ins hs
+  have s2 := sane_upsertAccount _ l p.destination (amKvs am p.destination) ins s1
+  have ext : AcctExt A (aUpsertAccount (aUpsertAccount A l p.source (amKvs am p.source) ins) l p.destination (amKvs am p.destination) ins) :=
+    (acctExt_upsert A l p.source _ ins).trans (acctExt_upsert _ l p.destination _ ins)
+  obtain ⟨k1, k2⟩ := posting_accts A l p (amKvs am p.source) (amKvs am p.destination) ins
+  have a1 := acctSeqOf_spec _ l p.source k1
+  have s3 := sane_insertMove _ txSeq l ins eff p.source p.asset p.amount true (A.accounts.any (acctKey l p.source)) _ s2 a1
+  have hm2 : (aUpsertAccount (aUpsertAccount A l p.source (amKvs am p.source) ins) l p.destination (amKvs am p.destination) ins).moves = A.moves := by simp
+  have v3 : VolOk (aInsertMove (aUpsertAccount (aUpsertAccount A l p.source (amKvs am p.source) ins) l p.destination (amKvs am p.destination) ins)
+      txSeq l ins eff p.source p.asset p.amount true (A.accounts.any (acctKey l p.source))
+      (acctSeqOf (aUpsertAccount (aUpsertAccount A l p.source (amKvs am p.source) ins) l p.destination (amKvs am p.destination) ins) l p.source)).moves := by
+    apply volOk_insertMove _ _ _ _ _ _ _ _ _ _ _ s2.mv_lt (by rw [hm2]; exact h)
+    intro hex
+    rw [hm2]
+    exact fresh_acct_no_moves hs ext l p.source hex k1
+  apply volOk_insertMove _ _ _ _ _ _ _ _ _ _ _ s3.mv_lt v3
+  intro hex
+  have hne : ¬ p.source = p.destination := by
+    intro e; simp [e] at hex
+  have hno : A.accounts.any (acctKey l p.destination) = false := by simpa [hne] using hex
+  rw [aInsertMove_eq _ _ _ _ _ _ _ _ _ _ _ s2.mv_lt]
+  simp only [aInsertMove_accounts, hm2]
+  intro r hr
+  have hd : acctSeqOf { (aUpsertAccount (aUpsertAccount A l p.source (amKvs am p.source) ins) l p.destination (amKvs am p.destination) ins) with
+      moves := A.moves.map (patchMove eff p.asset p.amount true (A.accounts.any (acctKey l p.source))
+          (acctSeqOf (aUpsertAccount (aUpsertAccount A l p.source (amKvs am p.source) ins) l p.destination (amKvs am p.destination) ins) l p.source)) ++
+        [newMove (aUpsertAccount (aUpsertAccount A l p.source (amKvs am p.source) ins) l p.destination (amKvs am p.destination) ins) txSeq l ins eff p.source p.asset p.amount true
+          (A.accounts.any (acctKey l p.source))
+          (acctSeqOf (aUpsertAccount (aUpsertAccount A l p.source (amKvs am p.source) ins) l p.destination (amKvs am p.destination) ins) l p.source)],
+      movesSeq := (aUpsertAccount (aUpsertAccount A l p.source (amKvs am p.source) ins) l p.destination (amKvs am p.destination) ins).movesSeq + 1 } l p.destination =
+      acctSeqOf (aUpsertAccount (aUpsertAccount A l p.source (amKvs am p.source) ins) l p.destination (amKvs am p.destination) ins) l p.destination := rfl
+  rw [hd]
+  rcases List.mem_append.mp hr with hr | hr
+  · obtain ⟨r0, hr0, rfl⟩ := List.mem_map.mp hr
+    rw [(patchMove_id ..).2.2.1]
+    exact fresh_acct_no_moves hs ext l p.destination hno k2 r0 hr0
+  · simp only [List.mem_singleton] at hr
+    subst hr
+    simp only [newMove_fields]
+    obtain ⟨r1, hr1, e1, _, e3⟩ := a1
+    obtain ⟨r2, hr2, f1, _, f3⟩ := acctSeqOf_spec _ l p.destination k2
+    intro e
+    have : r1 = r2 := pairwise_lt_inj s2.acct_seq hr1 hr2 (by rw [e1, f1, e])
+    subst this
+    exact hne (e3.symm.trans f3)
+
+theorem sane_vol_postings (ps : List Posting) (A : ADB) (txSeq : Val) (l : String) (ins : Val) (eff : Int) (am : List (String × Meta))
+    (hs : Sane A) (h : VolOk A.moves) : VolOk (ps.foldl (fun A p => aInsertPosting A txSeq l ins eff p am) A).moves := by
+  induction ps generalizing A with
+  | nil => exact h
+  | cons p ps ih =>
+    exact ih _ (sane_frame_insertPosting A txSeq l ins eff p am hs).1 (volOk_insertPosting A txSeq l ins eff p am hs h)
+
+@[simp] theorem accountMeta_moves (am : List (String × Meta)) (A : ADB) (l : String) (d : Val) :
+    (am.foldl (fun A km => aUpsertAccount A l km.1 (kvsOf km.2) d) A).moves = A.moves := by
+  induction am generalizing A with
+  | nil => rfl
+  | cons km rest ih => simp [ih]
+
+theorem volOk_insertTransaction (A : ADB) (l : String) (tx : Tx) (d : Val) (am : List (String × Meta)) (hs : Sane A) (h : VolOk A.moves) :
+    VolOk (aInsertTransaction A l tx d am).moves :=
+  sane_vol_postings tx.postings (aTxInserted A l tx) (.int A.txSeq) l d tx.timestamp am (sane_txInserted A l tx hs) h
+
+/-- **every log entry keeps the running and effective totals of the `moves` table** -/
+theorem volOk_step (A : ADB) (log : CLog) (hs : Sane A) (h : VolOk A.moves) : VolOk (aStep A log).moves := by
+  have hs' := sane_logged A log hs
+  have h' : VolOk (aLogged A log).moves := h
+  unfold aStep
+  generalize aLogged A log = B at hs' h'
+  obtain ⟨l, id, d, ik, payload⟩ := log
+  cases payload with
+  | newTx tx am => simp only [aHandle, accountMeta_moves]; exact volOk_insertTransaction B l tx _ am hs' h'
+  | revert rid tx =>
+    simp only [aHandle, aRevertTransaction, (aUpdateTxs_proj _ _ _).2.2.2.1]; exact volOk_insertTransaction B l tx _ [] hs' h'
+  | setMeta t m =>
+    cases t with
+    | account a => simp only [aHandle, aUpsertAccount_moves]; exact h'
+    | transaction tid => simp only [aHandle, aUpdateTransactionMetadata, (aUpdateTxs_proj _ _ _).2.2.2.1]; exact h'
+  | delMeta t k =>
+    cases t with
+    | account a => simp only [aHandle, aDeleteAccountMetadata, aUpdateAccounts_moves]; exact h'
+    | transaction tid => simp only [aHandle, aDeleteTransactionMetadata, (aUpdateTxs_proj _ _ _).2.2.2.1]; exact h'
+
 end StoreSql
